@@ -332,6 +332,21 @@ def mutants(s, rng):
         c.chains[k].algo = rng.choice([3, 6, 7, 10, 11, 12, 0x7e, 0xff, 0x100, 0x101, 2 ** 32 + 1])
     m('chain%d-algo-unknown' % k, algo_unknown)
 
+    def links64(c):
+        # the top chain grown to exactly 64 links (shape: 65 bits, no index element can hold it) with the index a 64-bit accumulator would come out
+        # with when the leading one falls off; only where nothing above the chain would contradict it anyway
+        if c.cal is not None or len(c.chains[-1].links) >= 64:
+            return False
+        ch = c.chains[-1]
+        while len(ch.links) < 64:
+            ch.links.append(Link(rng.random() < 0.5, ('imprint', rnd_imprint(rng)), None))
+        nv = R.shape_of(ch.links) & (2 ** 64 - 1)
+        for ch2 in c.chains:
+            ch2.index[len(c.chains[-1].index) - 1] = nv
+        if c.rfc is not None and len(c.chains) == 1:
+            c.rfc.index = list(ch.index)
+    m('top-chain-64-links', links64)
+
     def drop_chain(c):
         if n < 2:
             return False
